@@ -111,3 +111,20 @@ Proof.
   split; [vm_compute; reflexivity|]. split; [vm_compute; reflexivity|].
   split; [discriminate|vm_compute; reflexivity].
 Qed.
+
+Lemma demo_local_facts : sem_facts demo_local_sem demo_aug demo_local.
+Proof.
+  split.
+  - intros a Ha args v _ Hs. typed_cases Ha Hs.
+  - intros op e t Ha. cbn in Ha. destruct Ha.
+Qed.
+
+Lemma demo_local_ok :
+  guard_ok demo_local = true /\ sem_facts demo_local_sem demo_aug demo_local /\
+  pprog_exec demo_local_sem demo_aug 30 3 demo_local = Some demo_local_trace /\
+  exists c, transl demo_local = Some c /\
+            cprog_exec demo_local_sem demo_aug (info_of demo_local) 30 3 true c = Some demo_local_trace.
+Proof.
+  split; [vm_compute; reflexivity|]. split; [exact demo_local_facts|]. split; [vm_compute; reflexivity|].
+  eexists. split; [vm_compute; reflexivity|]. vm_compute. reflexivity.
+Qed.
